@@ -170,3 +170,14 @@ def solver_parse(solver):
     """The output parser of a registry entry (PANOC / ZeroFPR share `solvers.parse_out`)."""
     mod = getattr(solver, 'mod', None)
     return getattr(mod, 'parse_out', None) or S.parse_out
+
+
+def c13_part(op_line, out_line, st):
+    """checks/c13.py's PANOC-OCP monitor (C03 relations for every exit, C06 facts, unsupported criteria throw)
+    for use under another property: its literal-reading C13 finding (residual at the *returned* inputs) is
+    C13's own open finding and is not reported under C03 / C06 / C19."""
+    import c13
+    m = c13.monitor(op_line, out_line, st)
+    if isinstance(m, tuple) and m[1] == c13.KEY_RETURNED:
+        return None
+    return m
